@@ -23,11 +23,19 @@
 (* (band = 0 in model checking: "beyond" is strict, a residual exactly at  *)
 (* the limit is not rejected).                                             *)
 (*                                                                         *)
+(* The problem record carries VALUES only.  How the caller represents the  *)
+(* abscissae (float64, or int64 / int32 / int16 / uint8 when they are      *)
+(* integral) is not part of it: every behaviour of the machine stands for  *)
+(* all representations (XForms), and the harness replays / records each    *)
+(* problem in several of them against the same specified outcome.          *)
+(*                                                                         *)
 (* prob = [n, perm, cpos, lower, upper, band, maxiter, mingood]            *)
 (* mingood = fewest points a fit needs (the spline order); with fewer good *)
 (* points the statement says nothing: pc = "unspec".                       *)
 (***************************************************************************)
 EXTENDS Integers, Sequences, FiniteSets
+
+XForms == {"float64", "int64", "int32", "int16", "uint8"}
 
 VARIABLES prob,      \* the problem (never changes)
           pc,        \* "start" "fit" "reject" "loop" "unsort" "return" "done" "unspec"
